@@ -3,7 +3,7 @@
 From Coq Require Import ZArith List Bool.
 From V Require Import Scan.ScanModel Run.RunLoop Match.Adjudicate Match.AdjProofs Match.Ctl Match.CtlProofs Match.Validity
   Match.Errors Match.ErrorsProofs Mgr.Aggregate.
-From V Require Scan.PySem Match.ErrEv Match.ErrSrc Match.ErrSrcEq.
+From V Require Scan.PySem Match.ErrEv Match.ErrSrc Match.ErrSrcEq Mgr.AggSrc Mgr.AggSrcEq.
 Import ListNotations.
 Open Scope Z_scope.
 
@@ -77,6 +77,22 @@ Theorem C04_aggregate_partial : forall ms, forallb m_started ms = true ->
   results_manager_is_valid ms = manifest_all_valid ms /\ manifest_all_valid ms = forallb m_valid ms.
 Proof. intros ms H. split; [apply aggregate_agree; exact H|reflexivity]. Qed.
 Print Assumptions C04_aggregate_partial.
+
+(** the source itself: ResultsManager.is_valid (the loop over the Results' is_valid property) and ResultsRegistrar.all_valid (the loop over the
+    csvpaths' verdicts), as translated from csvpath/managers/results/*.py (Mgr/AggSrc.v, regenerated on every run), are the model's two
+    aggregates for every list of members — hence, for members that read at least one record, both are the conjunction of the members' verdicts *)
+Theorem C04_aggregate_source : forall ms,
+  AggSrc.rm_is_valid_src (map AggSrcEq.member_src ms) = PySem.PBool (results_manager_is_valid ms) /\
+  AggSrc.all_valid_src (map (fun m => PySem.PBool (m_valid m)) ms) = PySem.PBool (manifest_all_valid ms).
+Proof. intros ms. split; [apply AggSrcEq.rm_is_valid_src_eq|apply AggSrcEq.all_valid_src_eq]. Qed.
+Print Assumptions C04_aggregate_source.
+Theorem C04_aggregate_source_conjunction : forall ms, forallb m_started ms = true ->
+  AggSrc.rm_is_valid_src (map AggSrcEq.member_src ms) = PySem.PBool (forallb m_valid ms) /\
+  AggSrc.all_valid_src (map (fun m => PySem.PBool (m_valid m)) ms) = PySem.PBool (forallb m_valid ms).
+Proof.
+  intros ms H. rewrite AggSrcEq.rm_is_valid_src_eq, AggSrcEq.all_valid_src_eq, (aggregate_agree ms H). split; reflexivity.
+Qed.
+Print Assumptions C04_aggregate_source_conjunction.
 
 (** D12, open finding: a member that read no record *)
 Theorem C04_aggregate_unstarted_refuted :
